@@ -62,10 +62,13 @@ Definition A_nb V frames E (n : nat) (p : list nat) : Qc :=
   qsum (map (fun a => let st := arun V frames E a in
                       if list_nat_eqb (a_pre st) p && negb (ends_blank V st) then a_w st else 0%Qc)
             (aligns V n)).
+(* every alignment of n frames, read *)
+Definition runs V frames E (n : nat) : list astate := map (arun V frames E) (aligns V n).
+Definition mass_in (rs : list astate) (p : list nat) : Qc :=
+  qsum (map (fun st => if list_nat_eqb (a_pre st) p then a_w st else 0%Qc) rs).
+(* total mass of the alignments of the whole input that collapse to p *)
 Definition ctc_mass V frames E (p : list nat) : Qc :=
-  qsum (map (fun a => let st := arun V frames E a in
-                      if list_nat_eqb (a_pre st) p then a_w st else 0%Qc)
-            (aligns V (length frames))).
+  mass_in (runs V frames E (length frames)) p.
 
 (* the textbook collapse: merge repeats, then drop blanks *)
 Fixpoint dedupe (prev : option nat) (a : list nat) : list nat :=
@@ -200,6 +203,7 @@ Definition spec_okb (V width : nat) (frames : list sframe) (E : score) (eps : Qc
   (out : list (list nat * mass)) : bool :=
   let T := length frames in
   let pos := filter (fun o => is_pos eps (snd o)) out in
+  let rs := runs V frames E T in   (* = ctc_mass, computed once *)
   (* one slot per beam position *)
   Nat.eqb (length out) width
   (* positive prefixes: blank-free, no longer than the input, distinct *)
@@ -210,12 +214,12 @@ Definition spec_okb (V width : nat) (frames : list sframe) (E : score) (eps : Qc
   && forallb (fun o => match snd o with Fin q => qleb 0%Qc (q + eps)%Qc | NegInf => true end) out
   (* never more than the true prefix mass *)
   && forallb (fun o => match snd o with
-                       | Fin q => qleb q (ctc_mass V frames E (fst o) + eps)%Qc
+                       | Fin q => qleb q (mass_in rs (fst o) + eps)%Qc
                        | NegInf => true end) pos
   (* exact when the beam can hold every prefix *)
   && (Nat.ltb width (npow_sum V T)
       || forallb (fun o => match snd o with
-                           | Fin q => qabs_le q (ctc_mass V frames E (fst o)) eps
+                           | Fin q => qabs_le q (mass_in rs (fst o)) eps
                            | NegInf => true end) pos)
   (* the mass of the prefix-beam recursion of that width, when its pruning is unambiguous *)
   && (let '(B, tight) := pbs_auto V width frames E (eps + eps + eps)%Qc T 0 pbs_init in
